@@ -153,9 +153,23 @@ JUDGE_PROP = {
 }
 
 
-def feature_sig(case):
-    """Coarse signature of the constructs of a query (for keys of whole-query findings)."""
-    q = case["q"]
+DOMINANT = ("having(aggregate_of_group_key)", "having(select_alias_shadows_column)")
+
+
+def col_names(e, acc):
+    if isinstance(e, dict):
+        if e.get("k") == "col":
+            acc.append(e["n"])
+        for v in e.values():
+            col_names(v, acc)
+    elif isinstance(e, list):
+        for v in e:
+            col_names(v, acc)
+    return acc
+
+
+def features(q):
+    """Constructs of a query term (for keys of whole-query findings)."""
     feats = set()
 
     def walk_q(x):
@@ -176,7 +190,15 @@ def feature_sig(case):
                             agg_args(v, acc)
                     return acc
                 on_key = any(a in gk for a in agg_args(x["having"], []))
-                feats.add("having(aggregate_of_group_key)" if on_key else "having")
+                # a select alias that is also the name of a column the HAVING refers to (and is not that column itself)
+                hcols = set(col_names(x["having"], []))
+                shadow = any(it["as"] in hcols and not (it["e"].get("k") == "col" and it["e"]["n"] == it["as"]) for it in x["items"])
+                if on_key:
+                    feats.add("having(aggregate_of_group_key)")
+                if shadow:
+                    feats.add("having(select_alias_shadows_column)")
+                if not on_key and not shadow:
+                    feats.add("having")
             if x["where"]["k"] != "none":
                 feats.add("where")
             names = [it["as"] for it in x["items"]]
@@ -205,6 +227,15 @@ def feature_sig(case):
             walk_f(f["r"])
 
     walk_q(q)
+    return feats
+
+
+def feature_sig(case):
+    """Key of a whole-query finding: the defect signatures present, else every construct of the (minimised) query."""
+    feats = features(case["q"])
+    dom = sorted(f for f in feats if f in DOMINANT)
+    if dom:
+        return "+".join(dom)
     return "+".join(sorted(feats)) or "plain"
 
 
